@@ -10,9 +10,10 @@ package vsched
 
 import (
 	"bytes"
-	"reflect"
 	"fmt"
+	"reflect"
 	"runtime"
+	"sort"
 	"strconv"
 	"sync"
 	"time"
@@ -82,8 +83,8 @@ type Thread struct {
 }
 
 type grant struct {
-	abort   bool
-	alt     alt
+	abort bool
+	alt   alt
 }
 
 // alt is one schedulable alternative at a point.
@@ -127,6 +128,9 @@ type Sched struct {
 	// alternative is enabled, before declaring a deadlock.
 	ForeignGrace time.Duration
 	Fails        []string // monitor failures recorded with Fail during this execution
+	prelude      bool     // see Prelude
+	draining     bool
+	watch        map[uintptr][]func(interface{})
 	// results
 	Deadlock   bool
 	Report     string
@@ -491,7 +495,7 @@ func RunOnce(prefix []int, body func(), seen map[uint64]int) *Sched {
 // RunOnceCfg is RunOnce with replay fingerprints and a foreign-event grace period.
 func RunOnceCfg(prefix []int, prefixFP []uint64, body func(), seen map[uint64]int, grace time.Duration) *Sched {
 	s := &Sched{byGoid: map[int64]*Thread{}, yieldc: make(chan *Thread), prefix: prefix, prefixFP: prefixFP, ForeignGrace: grace,
-		StepLimit: 20000, chanH: map[uintptr]uint64{}, objH: map[uintptr]uint64{}, Seen: seen}
+		StepLimit: 20000, watch: map[uintptr][]func(interface{}){}, chanH: map[uintptr]uint64{}, objH: map[uintptr]uint64{}, Seen: seen}
 	gl.Lock()
 	epoch++
 	cs = s
@@ -520,6 +524,13 @@ func RunOnceCfg(prefix []int, prefixFP []uint64, body func(), seen map[uint64]in
 				order = append(order, t)
 			}
 		}
+		// The order of the other threads is by canonical id (a function of the spawn
+		// tree), not by creation order, which may depend on foreign events in a prelude.
+		rest := order
+		if last != nil && !last.fin {
+			rest = order[1:]
+		}
+		sort.Slice(rest, func(i, j int) bool { return rest[i].cid < rest[j].cid })
 		var alts []alt
 		runnerEnabled := false
 		nRunner := 0
@@ -529,21 +540,31 @@ func RunOnceCfg(prefix []int, prefixFP []uint64, body func(), seen map[uint64]in
 			runnerEnabled, nRunner = false, 0
 			for i, t := range order {
 				a := s.alternatives(t)
+				if s.draining && !s.prelude && t == s.mainThread {
+					continue // Quiesce: the main thread waits until nothing else can run
+				}
 				if i == 0 && t == last && len(a) > 0 {
 					runnerEnabled = true
 					nRunner = len(a)
 				}
 				alts = append(alts, a...)
 			}
+			if len(alts) == 0 && s.draining && !s.prelude {
+				alts = append(alts, s.alternatives(s.mainThread)...)
+			}
 			if len(alts) > 0 {
 				break
 			}
 			// nothing enabled: maybe foreign events pending
-			if s.ForeignGrace == 0 {
+			grace := s.ForeignGrace
+			if s.prelude && grace < 20*time.Second {
+				grace = 20 * time.Second
+			}
+			if grace == 0 {
 				break
 			}
 			if deadline.IsZero() {
-				deadline = time.Now().Add(s.ForeignGrace)
+				deadline = time.Now().Add(grace)
 			}
 			if time.Now().After(deadline) {
 				break
@@ -555,15 +576,35 @@ func RunOnceCfg(prefix []int, prefixFP []uint64, body func(), seen map[uint64]in
 			s.Report = s.BlockedReport()
 			break
 		}
+		if s.prelude {
+			// Prelude steps follow the default choice, are not recorded and not explored.
+			// When the prelude body has returned (draining), every other thread runs until
+			// it blocks before the main thread is allowed to start the explored part.
+			a := alts[0]
+			if s.draining {
+				for _, x := range alts {
+					if x.t != s.mainThread {
+						a = x
+						break
+					}
+				}
+			}
+			s.applyHB(a)
+			s.running = a.t
+			last = a.t
+			a.t.wake <- grant{alt: a}
+			continue
+		}
+		idx := len(s.trace)
 		choice := 0
-		if step < len(s.prefix) {
-			choice = s.prefix[step]
+		if idx < len(s.prefix) {
+			choice = s.prefix[idx]
 			if choice >= len(alts) {
-				s.Diverged = fmt.Sprintf("step %d: prefix choice %d out of range %d", step, choice, len(alts))
+				s.Diverged = fmt.Sprintf("step %d: prefix choice %d out of range %d", idx, choice, len(alts))
 				break
 			}
 		}
-		if s.Seen != nil && step >= len(s.prefix) {
+		if s.Seen != nil && idx >= len(s.prefix) {
 			k := s.stateKey(last)
 			if DebugKeys {
 				fmt.Printf("    step %d key %x alts=%d next=T%d %s %s\n", step, k, len(alts), alts[choice].t.id, alts[choice].t.pending.kind, alts[choice].t.pending.site)
@@ -585,8 +626,8 @@ func RunOnceCfg(prefix []int, prefixFP []uint64, body func(), seen map[uint64]in
 		p := Point{Thread: a.t.id, Kind: o.kind.String(), Site: o.site, NAlt: len(alts), Chosen: choice,
 			RunnerEn: runnerEnabled, NRunner: nRunner, NFirst: nFirst, Preempt: runnerEnabled && a.t != last,
 			FP: mix(a.t.cid, uint64(o.kind), hs(o.site), uint64(len(alts)))}
-		if step < len(s.prefixFP) && s.prefixFP[step] != p.FP {
-			s.Diverged = fmt.Sprintf("step %d: replay divergence: now T%d %s %s (%d alternatives)", step, a.t.id, o.kind, o.site, len(alts))
+		if idx < len(s.prefixFP) && s.prefixFP[idx] != p.FP {
+			s.Diverged = fmt.Sprintf("step %d: replay divergence: now T%d %s %s (%d alternatives)", idx, a.t.id, o.kind, o.site, len(alts))
 			break
 		}
 		s.trace = append(s.trace, p)
@@ -641,7 +682,6 @@ func (s *Sched) BlockedReport() string {
 	}
 	return b.String()
 }
-
 
 // Fail records a monitor failure for the current execution (also when the
 // execution is later cut by the state cache).
@@ -705,3 +745,59 @@ func PassFails() []string {
 
 // Active reports whether an exploration is running and the caller is a managed thread.
 func Active() bool { return curFast() != nil }
+
+// Prelude runs f, on the calling (main) thread, as a non-explored set-up phase: while
+// it runs the scheduler follows default choices only, records nothing in the trace,
+// and waits generously for foreign events (e.g. machines booting on goroutines the
+// scheduler does not own). Exploration proper starts when f returns. The state the
+// prelude leaves behind must not depend on foreign timing.
+func Prelude(f func()) {
+	s := cs
+	if s == nil || curFast() == nil {
+		f()
+		return
+	}
+	s.prelude = true
+	f()
+	s.draining = true
+	Yield("prelude-end") // granted only once every other thread is blocked
+	s.draining = false
+	s.prelude = false
+	Yield("explore-begin")
+}
+
+// Watch registers f to be called, by the thread executing the step, at the moment a
+// value is communicated on ch (rendezvous or buffered send). Harness monitors use it to
+// observe a single-threaded event loop's interactions in exactly the loop's own order.
+func Watch[T any](ch <-chan T, f func(v T)) {
+	s := cs
+	if s == nil {
+		return
+	}
+	id := chid(ch)
+	s.gmu.Lock()
+	s.watch[id] = append(s.watch[id], func(v interface{}) { f(conv[T](v)) })
+	s.gmu.Unlock()
+}
+
+func (s *Sched) notifyWatch(id uintptr, v interface{}) {
+	s.gmu.Lock()
+	ws := s.watch[id]
+	s.gmu.Unlock()
+	for _, w := range ws {
+		w(v)
+	}
+}
+
+
+// Quiesce parks the calling main thread until no other thread can make progress.
+// The steps the other threads take meanwhile are ordinary, explored steps.
+func Quiesce() {
+	s := cs
+	if s == nil || curFast() != s.mainThread {
+		return
+	}
+	s.draining = true
+	Yield("quiesce")
+	s.draining = false
+}
